@@ -26,10 +26,10 @@ def specs(tier):
     S = [gridlab.tokamak_spec("lsn", fpol="linear", extract=ex),                       # orthogonal, psi decreasing outwards (bpsign=-1)
          gridlab.tokamak_spec("ldn", fpol="const", extract=ex),                        # orthogonal, bpsign=+1
          gridlab.tokamak_spec("cdn", fpol="linear", options={"orthogonal": False}, extract=ex),  # non-orthogonal, bpsign=-1
+         gridlab.tokamak_spec("ldn", fpol="linear", options={"orthogonal": False}, extract=ex),  # non-orthogonal, bpsign=+1
          gridlab.circular_spec(extract=ex)]
     if tier == "thorough":
-        S += [gridlab.tokamak_spec("ldn", fpol="linear", options={"orthogonal": False}, extract=ex),
-              gridlab.tokamak_spec("usn", fpol="negconst", extract=ex),
+        S += [gridlab.tokamak_spec("usn", fpol="negconst", extract=ex),
               gridlab.tokamak_spec("udn", fpol="const", extract=ex),
               gridlab.tokamak_spec("cdn", fpol="const", options={"psi_interpolation_method": "dct"}, extract=ex),
               gridlab.tokamak_spec("lsn", fpol="const", psi_sign=-1.0, extract=ex),
